@@ -177,7 +177,7 @@ def block_table(thorough):
           B("FftFilter", {"taps": [1, 0, 2, 1, 1]}, "small", 900, extra={"extra_sched": held}),
           B("RationalResampler<u8>", {"interp": 3, "deci": 1}, "bytes", 2000, extra={"extra_sched": held}),
           B("Hilbert", {"ntaps": 5}, "small", 1500, extra={"extra_sched": held}),
-          B("VecToStream<u8>", {}, "bytes", 0, extra={"extra_sched": held, "packets": [[7] * 3000, [8] * 2000, [9] * 500]})]
+          B("VecToStream<u8>", {}, "bytes", 0, extra={"extra_sched": held, "packets": [[7] * 3000, [8] * 2000]})]
     return t
 
 
